@@ -1,0 +1,46 @@
+//go:build verif
+
+package fschannel
+
+// Contracts for the rotating log file (property C07), checked by /verif/govc.
+// Comment-only file: it adds nothing to any build.
+//
+// Ghost accounting (assumed contracts of os.File.Write / os.Rename): fwritten is the number of bytes
+// written to files so far, nrenames the number of rotations, fexists which paths exist.
+//
+// rfOK: the active file never holds more than maxSize bytes when a write starts.
+//@ spec rfOK(f *rotateFile) bool = 0 <= f.pos && f.pos <= f.maxSize && f.maxSize < 1<<40
+//
+//@ func (*rotateFile).reopen
+//@   ensures result == nil ==> f.pos == 0 && f.f != nil
+//@   ensures result != nil ==> f.pos == old(f.pos)
+//@   modifies f.f, f.pos
+//
+// rotate: the active file is renamed away and a new empty one is opened; a rotation must never
+// overwrite an earlier rotated file.
+//@ func (*rotateFile).rotate
+//@   physical 0 <= nrenames && nrenames < 1<<49
+//@   callpre os.Rename: !fexists[newpath]
+//@   ensures nrenames == old(nrenames) + 1
+//@   ensures result == nil ==> f.pos == 0
+//@   modifies f.f, f.pos, nrenames, fexists
+//
+// Write(p): p is a batch of complete lines (it ends with '\n'). Every byte of p is either written
+// to a file or is a '\n' that ends a line right before a rotation (never anything else: the
+// line-start invariant); at most one byte is skipped per rotation; on success the whole batch is
+// accounted for and the active file is again within its maximum size.
+//@ func (*rotateFile).Write
+//@   check bounds
+//@   physical 0 <= fwritten && fwritten < 1<<49 && 0 <= nrenames && nrenames < 1<<49
+//@   requires rfOK(f) && len(p) < 1<<40 && (len(p) == 0 || p[len(p)-1] == '\n')
+//@   ensures [all-accounted] result1 == nil ==> result0 == len(p)
+//@   ensures [written-or-newline] result1 == nil ==> fwritten - old(fwritten) <= len(p) && len(p) - (fwritten - old(fwritten)) <= nrenames - old(nrenames)
+//@   ensures [size] result1 == nil ==> rfOK(f)
+//@   modifies *
+//@   loop 1: invariant suffixof(p, old(p)) && rfOK(f)
+//@   loop 1: invariant [ends-with-newline] len(p) == 0 || p[len(p)-1] == '\n'
+//@   loop 1: invariant [consumed] written == len(old(p)) - len(p)
+//@   loop 1: invariant [mono] old(nrenames) <= nrenames && old(fwritten) <= fwritten && 0 <= written
+//@   loop 1: invariant [acc-written] fwritten - old(fwritten) <= written
+//@   loop 1: invariant [acc-skipped] written - (fwritten - old(fwritten)) <= nrenames - old(nrenames)
+//@   loop 1: invariant [line-start] len(p) == len(old(p)) || old(p)[len(old(p)) - len(p) - 1] == '\n'
